@@ -256,7 +256,7 @@ where
         self.command(spi, Command::PartialIn)?;
         self.command(spi, Command::PartialWindow)?;
         self.send_data(spi, &[(x >> 8) as u8])?;
-        let tmp = x & 0xf8;
+        let tmp = x & !0x07;
         self.send_data(spi, &[tmp as u8])?; // x should be the multiple of 8, the last 3 bit will always be ignored
         let tmp = tmp + width - 1;
         self.send_data(spi, &[(tmp >> 8) as u8])?;
@@ -424,7 +424,7 @@ where
         height: u32,
     ) -> Result<(), SPI::Error> {
         self.send_data(spi, &[(x >> 8) as u8])?;
-        let tmp = x & 0xf8;
+        let tmp = x & !0x07;
         self.send_data(spi, &[tmp as u8])?; // x should be the multiple of 8, the last 3 bit will always be ignored
         let tmp = tmp + width - 1;
         self.send_data(spi, &[(tmp >> 8) as u8])?;
